@@ -69,12 +69,12 @@ def fam_ipfix(rng, tier):
 
 
 def fam_cache(rng, tier):
-    return fam_ss(rng, tier) + gen.fam_redefine_in_packet(rng, n(tier, 60, 400), lossless=True) + gen.fam_dup_in_set(rng, n(tier, 80, 600)) + gen.fam_chain_many_templates(rng, n(tier, (1100,), (1025, 1100, 4100))) + gen.fam_boundaries(rng) + gen.fam_isolation(rng, n(tier, 60, 500)) + gen.fam_rejected_template(rng, n(tier, 60, 400)) + gen.fam_template_noise(rng, n(tier, 60, 400)) + gen.fam_redefine(rng, n(tier, 80, 600), lossless=True) + \
+    return fam_ss(rng, tier) + gen.fam_redefine_in_packet(rng, n(tier, 60, 400), lossless=True) + gen.fam_dup_in_set(rng, n(tier, 80, 600)) + gen.fam_chain_many_templates(rng, n(tier, (1100,), (1025, 1100, 4100))) + gen.fam_boundaries(rng) + gen.fam_isolation(rng, n(tier, 60, 500)) + gen.fam_forget(rng, n(tier, 60, 400)) + gen.fam_rejected_template(rng, n(tier, 60, 400)) + gen.fam_template_noise(rng, n(tier, 60, 400)) + gen.fam_redefine(rng, n(tier, 80, 600), lossless=True) + \
         gen.fam_stream(rng, n(tier, 100, 800), simple_ipfix=True, lossless=True)
 
 
 def fam_c07(rng, tier):
-    return fam_ss(rng, tier) + gen.fam_boundaries(rng) + gen.fam_unknown_template(rng, n(tier, 150, 1500))
+    return fam_ss(rng, tier) + gen.fam_boundaries(rng) + gen.fam_unknown_template(rng, n(tier, 150, 1500)) + gen.fam_forget(rng, n(tier, 80, 600))
 
 
 def fam_c11(rng, tier):
@@ -92,7 +92,7 @@ def fam_c14(rng, tier):
 
 
 def fam_c13(rng, tier):
-    return fam_ss(rng, tier) + gen.fam_redefine_in_packet(rng, n(tier, 80, 600), want=('common',)) + gen.fam_common(rng, n(tier, 150, 1500)) + gen.fam_fixed(rng, n(tier, 40, 300)) + gen.fam_fixed_protocols(rng)
+    return fam_ss(rng, tier) + gen.fam_redefine_in_packet(rng, n(tier, 80, 600), want=('common',)) + gen.fam_common(rng, n(tier, 150, 1500)) + gen.fam_redefine(rng, n(tier, 80, 500)) + gen.fam_fixed(rng, n(tier, 40, 300)) + gen.fam_fixed_protocols(rng)
 
 
 STREAM_RULE = "conformant multi-call histories from the RFC-level generator (templates drawn from the library's type tables plus unknown types, supported widths, enterprise / variable-length / zero-length fields, 1-3 template records per set, options templates, paddings), encoded by the Lean specification writer Spec.enc"
@@ -129,7 +129,7 @@ PROPS = {
     "C15": {"oracle": "C15", "view": ["outcome", "pkts"], "want_override": ["alloc"],
             "families": lambda rng, tier: with_want(gen.fam_extremal(rng, tier) + gen.fam_budget(rng, tier) + gen.fam_retry(rng, tier) + gen.fam_bigtemplate_small_sets(rng, tier) + fam_general(rng, tier) + gen.fam_redefine(rng, n(tier, 40, 300)), ["alloc"]) + gen.fam_scaling(rng, tier),
             "mutate_per": {"quick": 1, "thorough": 3},
-            "rule": "heap bytes requested from a counting global allocator during parse_bytes (measured in the harness) against A*|buf| + B*size(result) + C with A=64, B=16, C=128 KiB, and size(result) against D*(|buf| + wire size of cached templates) + E with D=256, E=1 KiB (sizes defined in lean/NetflowModel/Cost.lean); growth oracle (assert_scale): the same input shape at size n and 4n on twin parsers, allocation and result size may grow at most 6x (+64 KiB) — templates per flowset, template sets, redefinitions, records, data sets, fields per template, V5/V7 records — and the same small message against caches of size n and 8n must cost the same; extremal families: headers announcing 65535 records/fields over short bodies, buffers packed with minimal packets, maximal record counts, templates with many (zero-length) fields"},
+            "rule": "heap bytes requested from a counting global allocator during parse_bytes (measured in the harness) against A*|buf| + B*size(result) + C + 1024*W with A=192, B=16, C=128 KiB and W the modelled data-path work of the call (Cost.workOf, lean/NetflowModel/CostWork.lean: decode attempts of the record loops, IPFIX template-element copies — work a late failure discards is paid by no byte of the result; Props/C15c.lean bounds W), and size(result) against D*(|buf| + wire size of cached templates) + E with D=256, E=1 KiB (sizes defined in lean/NetflowModel/Cost.lean); growth oracle (assert_scale): the same input shape at size n and 4n on twin parsers, allocation and result size may grow at most 6x (+64 KiB) — templates per flowset, template sets, redefinitions, records, data sets, fields per template, V5/V7 records — and the same small message against caches of size n and 8n must cost the same; extremal families: headers announcing 65535 records/fields over short bodies, buffers packed with minimal packets, maximal record counts, templates with many (zero-length) fields"},
     "C16": {"oracle": "C16", "view": ["outcome", "pkts"],
             "families": lambda rng, tier: fam_ss(rng, tier) + gen.fam_sizes(rng, tier) + gen.fam_json(rng, n(tier, 200, 2000)) + gen.fam_garbage(rng, n(tier, 60, 400)) + gen.fam_fixed(rng, n(tier, 30, 200)),
             "mutate_per": {"quick": 1, "thorough": 2},
